@@ -157,6 +157,23 @@ class TearfreeRef:
       return False
     return (o["skip_rank1"] and len(shape) <= 1) or any(s > o["dim_gt"] for s in shape)
 
+  def _adafactor(self, key, g, x):
+    """AdaFactor's step is taken from optax itself (outside the repository), as a descent direction's negative:
+    optax.adafactor returns -step, the documented grafting update is +step."""
+    import jax.numpy as jnp
+    import optax
+    o = self.o
+    if not hasattr(self, "_af"):
+      self._af = optax.adafactor(min_dim_size_to_factor=o.get("af_min_dim", 128), decay_rate=o["gdecay"],
+                                 multiply_by_parameter_scale=o.get("af_param_scale", True), eps=o["geps"],
+                                 clipping_threshold=o.get("af_clip", 1.0))
+      self._af_state = {}
+    p = {"w": jnp.asarray(x)}
+    if key not in self._af_state:
+      self._af_state[key] = self._af.init(p)
+    u, self._af_state[key] = self._af.update({"w": jnp.asarray(g)}, self._af_state[key], p)
+    return -np.asarray(u["w"], F)
+
   def second_order(self, key, g):
     o = self.o
     shape = g.shape
@@ -242,6 +259,8 @@ class TearfreeRef:
         gd = o["gdecay"]
         self.acc[key] = self.acc[key] + g * g if gd == 1.0 else g * g * (1 - gd) + gd * self.acc[key]
         gu = g / np.sqrt(self.acc[key] + o["geps"])
+      elif o["graft"] == "adafactor":
+        gu = self._adafactor(key, g, x)
       else:
         gu = None
       if msk:
